@@ -1,5 +1,7 @@
 package autodiff
 
+import "math"
+
 // C02: mixed-type operand pairs. Min / Max / comparisons / ring operations of a
 // receiver on operands of other scalar types agree with the numeric order and
 // arithmetic of the operands as represented in the receiver's type.
@@ -252,6 +254,11 @@ func verif_C02_range(ty, op int) {
 		r.Tanh(a)
 		v := r.GetFloat64()
 		VerifAssert("Tanh:in-[-1,1]", v >= -1 && v <= 1)
+	case 5:
+		r.LogErfc(a)
+		v := r.GetFloat64()
+		VerifAssert("LogErfc:not-NaN", v == v)
+		VerifAssert("LogErfc:finite-and-<=log2", v <= 0.7 && v >= -1.7e308)
 	case 4:
 		b, y := verifRangeScalar(ty, "b")
 		VerifAssume(x > y)
@@ -263,7 +270,47 @@ func verif_C02_range(ty, op int) {
 	VerifReach("range")
 }
 
+// Vector reductions with caller-supplied temporaries: SmoothMax(x, alpha) =
+// sum x_i e^(alpha x_i) / sum e^(alpha x_i) whatever the temporaries and the
+// receiver held before the call (real interpretation). ty 0: Real64, 1: Float64.
+// op 0: SmoothMax, 1: LogSmoothMax (positive elements: it works with log x_i).
+func verif_C02_smoothmax(ty, op, n int) {
+	mk := func(name string) Scalar {
+		if ty == 0 {
+			return NewReal64(VerifFinite64(name))
+		}
+		return NewFloat64(VerifFinite64(name))
+	}
+	xs := make([]float64, n)
+	v := NullDenseFloat64Vector(n)
+	for i := 0; i < n; i++ {
+		xs[i] = VerifFinite64("x")
+		if op == 1 {
+			VerifAssume(xs[i] > 0)
+		}
+		v.AT(i).SetFloat64(xs[i])
+	}
+	av := VerifFinite64("alpha")
+	alpha := ConstFloat64(av)
+	r := mk("r")
+	num, den := 0.0, 0.0
+	for i := 0; i < n; i++ {
+		e := math.Exp(av * xs[i])
+		num += xs[i] * e
+		den += e
+	}
+	if op == 0 {
+		r.SmoothMax(v, alpha, [2]Scalar{mk("t"), mk("t")})
+		VerifAssertEqF("SmoothMax:value", r.GetFloat64()*den, num)
+	} else {
+		r.LogSmoothMax(v, alpha, [3]Scalar{mk("t"), mk("t"), mk("t")})
+		VerifAssertEqF("LogSmoothMax:value", r.GetFloat64()*den, num)
+	}
+	VerifReach("smoothmax")
+}
+
 func init() {
+	VerifRegister("verif_C02_smoothmax", func(a []int) { verif_C02_smoothmax(a[0], a[1], a[2]) })
 	VerifRegister("verif_C02_range", func(a []int) { verif_C02_range(a[0], a[1]) })
 	VerifRegister("verif_C02_mixed", func(a []int) { verif_C02_mixed(a[0], a[1], a[2]) })
 	VerifRegister("verif_C02_int", func(a []int) { verif_C02_int(a[0]) })
